@@ -71,8 +71,22 @@ func funcName(f *ssa.Function) string {
 	if o := f.Origin(); o != nil {
 		f = o
 	}
+	// a function standing in for a renamed anchor answers to the anchor's name (fold.go); closures
+	// inside it follow (their names are derived from the parent's)
+	if old, ok := standInName[f]; ok {
+		return old
+	}
+	if p := f.Parent(); p != nil {
+		for top := p; top != nil; top = top.Parent() {
+			if old, ok := standInName[top]; ok {
+				return strings.Replace(f.String(), top.String(), old, 1)
+			}
+		}
+	}
 	return f.String()
 }
+
+var standInName = map[*ssa.Function]string{}
 
 // callInstr returns the CallCommon if the instruction is a call/go/defer.
 func callCommon(in ssa.Instruction) *ssa.CallCommon {
@@ -753,4 +767,19 @@ func returnSites(ret *ssa.Return, idx int) []retSite {
 	}
 	walk(ret.Results[idx], ret, 0)
 	return out
+}
+
+// shortName is fn.Name() for table look-ups by short name: a function standing in for a renamed
+// anchor answers to the anchor's short name.
+func shortName(fn *ssa.Function) string {
+	if fn == nil {
+		return ""
+	}
+	if old, ok := standInName[fn]; ok {
+		if i := strings.LastIndex(old, "."); i >= 0 {
+			return old[i+1:]
+		}
+		return old
+	}
+	return fn.Name()
 }
